@@ -15,6 +15,7 @@ type VerifFile struct{ f *file }
 func VerifNewFile() *VerifFile { return &VerifFile{f: &file{}} }
 
 func (v *VerifFile) Rotate1() time.Time              { return v.f.rotate1() }
+func (v *VerifFile) Rotate()                         { v.f.rotate() }
 func (v *VerifFile) NewCounter(name string) *Counter { return &Counter{name: name, file: v.f} }
 func (v *VerifFile) NewStack(name string, depth int) *StackCounter {
 	return &StackCounter{name: name, depth: depth, file: v.f}
